@@ -607,8 +607,17 @@ def s_txn2(rep, W, rule="S-TXN2"):
     for site, term in exits(W, mb):
         if is_error_exit(term):
             continue
-        mm = m(pat.adt("Result", "Ok", ("0", pat.adt("InnerTxn", "InnerTxn", ("client_id", V("cid")), ("guard", V("g")),
-                                                      ("written", V("w")), ("committed", V("c"))))), term)
+        mm0 = m(pat.adt("Result", "Ok", ("0", pat.adt("InnerTxn", "InnerTxn", Ellipsis))), term)
+        mm = None
+        if mm0 is not None:
+            # fields identified by type, not by name
+            inner = [x for x in P.walk(term) if x[0] == "agg" and isinstance(x[1], tuple) and x[1][1].endswith("::InnerTxn")][0]
+            ftypes = {f["name"]: f["ty"] for f in (W.prog.adt("inmemory::InnerTxn") or {"variants": [{"fields": []}]})["variants"][0]["fields"]}
+            vals_ = dict(inner[2])
+            cids = [n_ for n_, ty_ in ftypes.items() if ty_ == "uuid::Uuid"]
+            gs = [n_ for n_, ty_ in ftypes.items() if ty_.startswith("std::sync::poison::mutex::MutexGuard<")]
+            if len(cids) == 1 and len(gs) == 1:
+                mm = {"cid": vals_.get(cids[0]), "g": vals_.get(gs[0])}
         if mm is None:
             rep.fail(rule, (fnm, "returns-InnerTxn"), "success value is %s" % P.show(term), where(mb))
             continue
@@ -866,18 +875,30 @@ def method_class(W, mth):
         out["sqlite"] = "none:" + ",".join(verbs)
     mb = W.impl_method("inmemory", mth)
     ops, stores = E.inmem_summary(W, mb)
-    data_stores = [s for s in stores if not (m(self_field("written"), s.target) is not None or m(self_field("committed"), s.target) is not None)]
-    flag_commit = [s for s in stores if m(self_field("committed"), s.target) is not None]
+    data_stores = [s for s in stores if not is_flag_store(W, s)]
+    flag_stores = [s for s in stores if is_flag_store(W, s)]
     if any(o.write for o in ops) or data_stores:
         out["inmemory"] = "write"
-    elif flag_commit:
-        out["inmemory"] = "commit"
+    elif flag_stores and not ops:
+        out["inmemory"] = "commit"      # touches nothing but the transaction's own bookkeeping flag
     elif ops:
         out["inmemory"] = "read"
     else:
         out["inmemory"] = "none"
     return out, {"sqlite_verbs": verbs, "inmemory_map_ops": ["%s.%s" % (o.field, o.method) for o in ops],
                  "inmemory_stores": [P.show(s.target) for s in stores]}
+
+
+def is_flag_store(W, s):
+    """A store into a bool bookkeeping field of the transaction object itself (self.<flag> = const)."""
+    t = s.target
+    if not (t[0] == "field" and t[1][0] == "param" and t[1][1] == 1):
+        return False
+    adt = W.prog.adt("inmemory::InnerTxn")
+    if adt is None:
+        return False
+    ftypes = {f["name"]: f["ty"] for f in adt["variants"][0]["fields"]}
+    return ftypes.get(t[2]) == "bool"
 
 
 def s_class(rep, W, rule="S-CLASS"):
